@@ -213,7 +213,7 @@ def check(col: Collector, tier: str):
     check_ifexp(sub, repo, si, m)
     col.floor("C05.R9", 4)
     for o in sub.obs:
-        if o.detail in ("failure-if-attached-after-the-loop", "false-arm-translated-under-else-after-if-closed", "true-arm-translated-under-if(test)",
+        if o.detail in ("failure-if-attached-after-the-loop", "false-arm-translated-under-else-after-if-closed", "true-arm-translated-under-if(test)", "translates-test-then-body-then-orelse",
                         "both-arms-assign-the-same-result"):
             col.add("C05.R9", o.construct, o.detail, o.ok, o.msg + " (otherwise an uninitialised local is written into the row: it holds the previous event's value)", o.loc)
     check_no_state_on_query_nodes(col, "C05.R9", repo)
